@@ -1,5 +1,23 @@
 package main
 
+import "sort"
+
+// Each generated file has its own Go source file in this package which registers
+// a dumper in init(); dumpAll runs them in name order.
+var dumpers = map[string]func(out string) error{}
+
+func registerDump(name string, f func(out string) error) { dumpers[name] = f }
+
 func dumpAll(out string) error {
+	var names []string
+	for n := range dumpers {
+		names = append(names, n)
+	}
+	sort.Strings(names)
+	for _, n := range names {
+		if err := dumpers[n](out); err != nil {
+			return err
+		}
+	}
 	return nil
 }
